@@ -40,7 +40,7 @@ def gen_inputs(rng, N, cfg, small):
         SEASONALITY=seas, RATIO_INCREASED_CROP_AREA=(rng.uniform(1.2, 2.0) if cfg["expand"] else 1),
         NUMBER_YEARS_TAKES_TO_REACH_INCREASED_AREA=3, INITIAL_HARVEST_DURATION_IN_MONTHS=8,
         DELAY=dict(ROTATION_CHANGE_IN_MONTHS=2, GREENHOUSE_MONTHS=cfg["ghDelay"], INDUSTRIAL_FOODS_MONTHS=cfg["indDelay"],
-                   SEAWEED_MONTHS=cfg["swDelay"], FEED_SHUTOFF_MONTHS=min(cfg["feedMonths"], N), BIOFUEL_SHUTOFF_MONTHS=cfg["bioMonths"]),
+                   SEAWEED_MONTHS=cfg["swDelay"], FEED_SHUTOFF_MONTHS=min(cfg["feedMonths"], N), BIOFUEL_SHUTOFF_MONTHS=min(cfg["bioMonths"], N)),
         INITIAL_GLOBAL_CROP_AREA=rng.uniform(1e5, 1e9), INITIAL_CROP_AREA_FRACTION=(3.0e-6 if small else rng.uniform(0.001, 1.0)),   # (small countries hold a few millionths of the world's cropland)
         # (a country run also carries the hectares reported in the country table, which are not the share x world cropland)
         INITIAL_CROP_AREA_HA=rng.uniform(1e3, 1e8),
@@ -105,7 +105,7 @@ def expected(rec, c, fish_pct, kcals_monthly):
         gh_yield = 0.0 if total_area == 0 else np.mean(cyc) / total_area * (ratio if ratio > 1 else ratio ** expo) * wd * (1 - c["WASTE_RETAIL"] / 100) * (1 + c["GREENHOUSE_GAIN_PCT"] / 100)
         out["greenhouse"].append(gh_yield * ghf * total_area)
         fish_k = c["FISH_DRY_CALORIC_ANNUAL"] * (1 - c["WASTE_DISTRIBUTION"]["SEAFOOD"] / 100) * (1 - c["WASTE_RETAIL"] / 100) * 4e6 / 1e9 / 12
-        out["fish"].append(fish_pct[m] / 100 * fish_k)
+        out["fish"].append(fish_pct[m] / 100 * fish_k if c["ADD_FISH"] else 0.0)
         out["grass"].append(c["RATIO_GRASSES_YEAR%d" % r["grassYear"]] * c["HUMAN_INEDIBLE_FEED_BASELINE_MONTHLY"] * 4000.0)
         out["feed"].append(c["FEED_KCALS"] / 12 * 4e6 / 1e9 if r["feedOn"] else 0.0)
         out["biofuel"].append(c["BIOFUEL_KCALS"] / 12 * 4e6 / 1e9 if r["bioOn"] else 0.0)
@@ -219,6 +219,8 @@ def main():
         for j in range(n_inputs):
             small = (j % 3 == 2)
             c, fish = gen_inputs(rng, N, cfg, small)
+            if rep["runs"] % 5 == 2:
+                c["ADD_FISH"] = False     # (fish switched off: one zero per simulated month, whatever the length of the reduction table)
             nocrop = (rep["runs"] % 7 == 3)
             if nocrop:
                 # an input with a harvest but no cropland on record (Singapore's row; `fraction_crop_area: 0`): greenhouses occupy nothing
